@@ -231,15 +231,34 @@ def one_pair(ctx, alg, iso, cfg, name, kx, ky, lazy):
         gsets = [g for r in range(d + 2) for g in itertools.combinations(allg, r)]
     else:
         gsets = [tuple(sorted(ctx.rng.sample(allg, ctx.rng.randint(0, d + 1)))) for _ in range(3)]
-    for G in gsets:
+    # the same subsets written in another order, or naming a grade twice
+    extra = []
+    for G in gsets[:3]:
+        if len(G) >= 2 and ctx.rng.random() < 0.5:
+            H = list(G)
+            while H == sorted(H):
+                ctx.rng.shuffle(H)
+            extra.append(tuple(H))
+        elif len(G) >= 1 and ctx.rng.random() < 0.3:
+            extra.append(tuple(G) + (G[0],))
+    for G in gsets + extra:
         cid = [name, 'grade', list(kx), list(G)]
         if not ctx.want(cid):
             continue
         form = ctx.rng.choice(('args', 'tuple'))
         st, r = ctx.guarded(10, (lambda: a.grade(*G)) if form == 'args' else (lambda: a.grade(G)))
+        if tuple(G) != tuple(sorted(set(G))):
+            ctx.count('grade_selections_unsorted_or_repeated')
         if st != 'ok':
             if st == 'exc':
                 ctx.note_raised(r, 'grade')
+                Gs = tuple(sorted(set(G)))
+                if Gs != tuple(G):
+                    st_s, r_s = ctx.guarded(10, lambda: a.grade(*Gs))
+                    if st_s == 'ok':
+                        ctx.case(cid)
+                        ctx.violation('grade selection raises for a set of grades that it accepts in sorted order', cid + ['raises'], config=cfg,
+                                      grades=list(G), sorted_grades=list(Gs), form=form, error=f'{type(r).__name__}: {str(r)[:120]}')
             continue
         ctx.count('grade_selections')
         ctx.case(cid)
